@@ -59,10 +59,20 @@ func (d *scriptDebugger) At(ir *fast.Interp, env *fast.Env) fast.DebugOp {
 
 type c12Probe struct {
 	Name  string
-	Debug bool // needs OptDebugger (breakpoints)
+	Debug bool   // needs OptDebugger (breakpoints)
+	Src   string // what is evaluated (default: Name + "()")
 }
 
-var c12Probes = []c12Probe{{"P1", false}, {"P2", false}, {"P3", false}, {"P4", false}, {"P5", false}, {"P6", true}, {"P7", false}, {"P8", false}, {"P9", false}}
+func (p c12Probe) src() string {
+	if p.Src != "" {
+		return p.Src
+	}
+	return p.Name + "()"
+}
+
+var c12Probes = []c12Probe{{"P1", false, ""}, {"P2", false, ""}, {"P3", false, ""}, {"P4", false, ""}, {"P5", false, ""}, {"P6", true, ""}, {"P7", false, ""}, {"P8", false, ""}, {"P9", false, ""},
+	// top-level code (not a function body) with a deferred call of its own
+	{"P10", false, "{\n\tdefer p10cleanup()\n\thook.Fault(\"p10-top\")\n\tp10n += p10body()\n\thook.Ev(\"p10\", p10n > 0)\n}"}}
 var c13Targets = []string{"L1", "L2", "L3", "L4", "L5", "L6", "L7", "L8", "L9"}
 
 const (
@@ -177,6 +187,13 @@ func (e *c12Env) battery() []string {
 		}
 		log = append(log, e.dbg.Stops...)
 	}()
+	// top-level code (not a function body) that defers a recover while nothing is panicking
+	if esc := e.call(entryEval, "{\n\tdefer func() {\n\t\tbtop = recover()\n\t}()\n\tbcount++\n}"); esc != nil {
+		log = append(log, "TOPLEVEL-DEFER-ESCAPED "+fmtPanic(esc))
+	}
+	if vs, _ := e.ir.Eval("btop"); len(vs) == 1 {
+		log = append(log, fmt.Sprint("b-toplevel-recover ", vs[0].Interface()))
+	}
 	// plain expressions through the REPL path
 	e.call(entryREPL, "bcount = 0")
 	return log
@@ -215,13 +232,23 @@ func c12Init() {
 			}
 			ctx := &hook.Ctx{Ch: sim.NewReplay(0, nil).Stream("none")}
 			hook.Cur = ctx
-			esc := e.call(entryEval, name+"()")
+			esc := e.call(entryEval, c12Src(name))
 			hs.Stmt = nil
 			c12RefEsc[name] = fmtPanic(esc)
 			c12Counts[name] = [2]int{n, ctx.NFault}
 			c12RefLog[name] = append([]string(nil), ctx.Log...)
 		}
 	})
+}
+
+// c12Src is what is evaluated for probe / target name
+func c12Src(name string) string {
+	for _, p := range c12Probes {
+		if p.Name == name {
+			return p.src()
+		}
+	}
+	return name + "()"
 }
 
 func probeNames() []string {
@@ -251,7 +278,9 @@ func c12Enumerate(tier string) [][]uint32 {
 						flags |= 1
 					}
 					out = append(out, []uint32{uint32(pi), uint32(mode), uint32(k), 0, uint32(en), flags, uint32((k + en) % 5)})
-					if mode == 1 && !p.Debug && en != entryDebug {
+					if mode == 1 && !p.Debug && en != entryDebug && p.Src == "" {
+						// (not for top-level code: an evaluation nested in running TOP-LEVEL code reuses the
+						// interpreter's one top-level statement list, a re-entrancy limit unrelated to panics)
 						// the same compiled call runs a nested evaluation that panics and is recovered there
 						out = append(out, []uint32{uint32(pi), 1, uint32(k), 0, uint32(en), (flags &^ 1) | 8, 0})
 					}
@@ -291,7 +320,7 @@ func init() {
 	register(&Prop{
 		ID:    "C12",
 		Level: "fault_enumeration",
-		Rule: "enumeration of (probe program, fault point): for each of 9 probe programs (nested calls and loops; defers that recover / modify named results / call deeper; closures; single-goroutine select; a program panic re-panicked by a deferred call; breakpoints under the debugger option; directly deferred compiled functions and builtins running while the function is already panicking; a long loop calling a compiled function) a panic is injected before EVERY executed statement k = 1..N (statement seam) and inside EVERY call of a compiled function j = 1..M, entered through Eval / Compile+RunExpr / ParseEvalPrint / DebugExpr with the debugger and trap-panic options varied; every compiled-call point is repeated with a NESTED evaluation that panics and is recovered by the compiled function (the probe must then finish undisturbed); every third point (thorough: every point) is repeated with an interrupt requested at the instant the panic is raised; thorough adds all four entry paths per point and pairs (k, k+d), d = 1..12, where the second panic lands while the first is being handled. " +
+		Rule: "enumeration of (probe program, fault point): for each of 10 probe programs (nested calls and loops; defers that recover / modify named results / call deeper; closures; single-goroutine select; a program panic re-panicked by a deferred call; breakpoints under the debugger option; directly deferred compiled functions and builtins running while the function is already panicking; a long loop calling a compiled function; a block of top-level code with its own deferred call) a panic is injected before EVERY executed statement k = 1..N (statement seam) and inside EVERY call of a compiled function j = 1..M, entered through Eval / Compile+RunExpr / ParseEvalPrint / DebugExpr with the debugger and trap-panic options varied; every compiled-call point is repeated with a NESTED evaluation that panics and is recovered by the compiled function (the probe must then finish undisturbed); every third point (thorough: every point) is repeated with an interrupt requested at the instant the panic is raised; thorough adds all four entry paths per point and pairs (k, k+d), d = 1..12, where the second panic lands while the first is being handled. " +
 			"non-trivial = the injected panic fired; distinct = distinct (probe, kind, k, k2, entry, options)",
 		Runs:      func(tier string) int { return 0 },
 		Enumerate: c12Enumerate,
@@ -394,7 +423,7 @@ func runC12(t *testing.T, ch *sim.Choices, tier string) (o Outcome) {
 			panic(injectedPanic{"statement budget exceeded (spinning)"})
 		}
 	}
-	esc := e.call(entry, p.Name+"()")
+	esc := e.call(entry, p.src())
 	hs.Stmt, hs.Spin = nil, nil
 	ctx.FaultFn = nil
 	o.Steps = nstmt
